@@ -90,7 +90,9 @@ def run(prop: str, tier: str) -> int:
         alpha = b"aAbBzZ09 -_.$\xe9\xc9\n"
         for i in range(300 if tier == "quick" else 5000):
             kws = sorted({bytes(rng.choice(alpha) for _ in range(rng.randint(1, 4))) for _ in range(rng.randint(1, 6))} - {b"\n", b""})
-            kws = [k for k in kws if b"\n" not in k and k.strip(b" \t")]      # (a line of blanks only is a legitimate keyword too, but keep the lists readable)
+            kws = [k for k in kws if b"\n" not in k]       # (a line of blanks only is a keyword like any other)
+            if i % 9 == 0:
+                kws = sorted(set(kws) | {rng.choice([b" ", b"  ", b"\t", b" \t", b"\x0b", b"\x0c "])})
             if not kws:
                 continue
             sub = os.path.join(work, f"r{i}")
